@@ -889,7 +889,7 @@ pub const DEF: PropertyDef = PropertyDef {
            replaced by 0, 1, len(+-1), fit-to-buffer-end(+-1), written(+-1), 2^31(+-1), 2^32-1(-1), byte-swapped, one bit flipped or an arbitrary \
            value; non-trivial = the edit makes a designated range (startup code or a module of a walked table id) leave the buffer. arbitrary: \
            random bytes, half of them led by the magic; non-trivial = recognised, one module served and one designated range refused. \
-           thorough: libFuzzer campaign (ASan) with the byte-string oracle in the target",
+           thorough: libFuzzer campaign (ASan) with the byte-string oracle in the target. Also: iterator-protocol conformance of iter_modules() and the owning entry point parse_indexed_from_vec compared with the slice one",
     assumptions: &[
         "the payload range designated by an entry is offset .. offset + length - 1 relative to 12 + 8 x module_count (the trailing NUL itself is not required to be present or inside the buffer; such cases are counted in the class module-served-without-its-NUL)",
         "for byte strings that are not well-formed bundles an Err is accepted even when the designated range lies inside the buffer (e.g. an empty range that starts exactly at the buffer end); only well-formed bundles must be served completely",
